@@ -76,7 +76,7 @@ def oracle(sc, res, rep, case):
                 regs[info[-1]] = sc.slots[info[-1]]
             elif k in ("unwatchAll", "unwatch"):
                 regs.pop(info[-1], None)
-            elif k == "connLost":
+            elif k == "connLostRun" and info[1] == "discovery":
                 killed["*"] = idx
         elif it[0] == "out":
             _, t, text = it
